@@ -704,6 +704,8 @@ static Result run_pot(const json &c) {
   }
   long nexp = exact ? long(floorl(q + 0.5L)) + 1 : long(floorl(q)) + 1;
   r.cls(exact ? "tab:step-divides-range" : "tab:last-interval-short");
+  if (tmax > P.cut * (1 + 1e-12)) r.cls("tab:grid-beyond-cutoff");
+  if (tmin < P.min * (1 - 1e-12)) r.cls("tab:grid-below-min");
   std::string fn = fmt("/verif/build/work/c07_pot_%d.tab", int(getpid()));
   {
     StdoutSilencer quiet;
@@ -747,7 +749,13 @@ static Result run_pot(const json &c) {
     double fk = P.pf->CalculateF(xk);  // state after SavePotTab (CBSPL extrapolates the excluded knots first)
     // 10 significant digits + the accumulation of the abscissa (k ulp) through |dF/dr| <= 12 |F_terms| / r
     ld tol = 1e-9L * fabsl((ld)fk) + 12 * fmag(P, xk) * (ld)(k + 2) * EPS * 4 + 1e-300L;
-    if (!(fabsl((ld)rows[size_t(k)][1] - (ld)fk) <= tol)) {
+    // ambiguity band: the function jumps to 0 outside [min, cutoff]; an interior grid point that lands on min or on the
+    // cutoff within the rounding of the accumulated abscissa may be tabulated from either side of the jump
+    bool on_jump = k != nexp - 1 && k != 0 &&
+                   (fabsl((ld)xk - (ld)P.cut) <= 8 * (ld)(k + 2) * EPS * fabsl((ld)P.cut) || fabsl((ld)xk - (ld)P.min) <= 8 * (ld)(k + 2) * EPS * fabsl((ld)P.min));
+    if (on_jump) r.cls("tab:grid-point-on-jump(ambiguous)");
+    if (!(fabsl((ld)rows[size_t(k)][1] - (ld)fk) <= tol) &&
+        !(on_jump && (rows[size_t(k)][1] == 0.0 || fabsl((ld)rows[size_t(k)][1] - (ld)P.pf->CalculateF(fabsl((ld)xk - (ld)P.cut) < fabsl((ld)xk - (ld)P.min) ? P.cut : P.min)) <= tol + 1e-9L * fmag(P, xk)))) {
       r.fail(F + "::SavePotTab", fmt("row %ld (r=%.12g): tabulated %.12g, CalculateF %.12g", k, xk, rows[size_t(k)][1], fk));
       return r;
     }
@@ -806,6 +814,9 @@ static json gen_pot(const std::string &form) {
   if (subrange) {
     tmin = mn + (cut - mn) * double(ri(0, 16)) / 64.0;
     tmax = cut - (cut - mn) * double(ri(0, 16)) / 64.0;
+    // requested grids that reach beyond the function's own range [min, cutoff] (the function is 0 there)
+    if (rbool(35)) tmax = cut * (1.0 + double(ri(1, 16)) / 32.0);
+    if (rbool(20) && mn > 0) tmin = mn * double(ri(16, 31)) / 32.0;
   }
   if (!(tmin > 0)) {
     tmin = cut / 64;
